@@ -16,9 +16,9 @@ var chainAssume = []string{
 
 func chainFamilies(tier string) []string {
 	if fw.Quick(tier) {
-		return []string{"steady", "ragged", "leak", "churn", "capella", "custom", "ejectall", "ragged", "churn", "capella", "leak", "custom", "churn", "capella", "ragged", "mainnet"}
+		return []string{"steady", "ragged", "leak", "churn", "capella", "custom", "ejectall", "lateincl", "churn", "capella", "leak", "ejectdeneb", "lateincl", "capella", "ragged", "mainnet"}
 	}
-	return []string{"steady", "ragged", "leak", "churn", "capella", "custom", "mainnet", "churn", "capella", "ragged", "leak", "custom", "ejectall"}
+	return []string{"steady", "ragged", "leak", "churn", "capella", "custom", "mainnet", "lateincl", "churn", "capella", "ragged", "leak", "custom", "ejectall", "lateincl", "ejectdeneb"}
 }
 
 func init() {
@@ -138,7 +138,9 @@ func init() {
 			}
 		},
 		Required: []string{"slots_compared", "epoch_boundaries_compared", "finalized_advanced", "justified_advanced", "epochs_in_leak", "obs_slashed_validators", "obs_exiting_validators", "obs_effective_balance_below_max",
-			"upgrade_compared_altair", "upgrade_compared_bellatrix", "upgrade_compared_capella", "upgrade_compared_deneb"},
+			"upgrade_compared_altair", "upgrade_compared_bellatrix", "upgrade_compared_capella", "upgrade_compared_deneb",
+			"refspec_finalize_rule_1_bits234_source4", "refspec_finalize_rule_2_bits23_source3", "refspec_finalize_rule_3_bits123_source3", "refspec_finalize_rule_4_bits12_source2",
+			"refspec_finalize_rule_3_with_old_previous_ne_old_current", "refspec_epochs_with_ejections", "refspec_deneb_epochs_with_more_ejections_than_the_activation_cap_below_churn_limit"},
 	})
 }
 
